@@ -59,9 +59,10 @@ struct World {
   unifex::inplace_stop_source fsrc;
   bool awaited = false, avail_at_await = false;
   int fut_completions = 0, fut_outcome = -1, fut_payload = 0;
-  bool drop_begun = false, drop_returned = false, stop_begun = false;
+  bool drop_begun = false, drop_returned = false, stop_begun = false, stop_after_completion = false;
   bool terminated = false;
-  jmp_buf term_jmp; bool term_jmp_armed = false;
+  jmp_buf term_jmp[3]; bool term_jmp_armed[3] = {false, false, false};
+  bool expect_terminate = false;
 
   World();
   ~World();
@@ -89,7 +90,7 @@ struct World {
 
   void stop() {
     rt::obs("stop.begin");
-    stop_begun = true;
+    stop_begun = true; stop_after_completion = op_completed;
     fsrc.request_stop();
     rt::obs("stop.end");
   }
@@ -117,11 +118,12 @@ void segv_handler(int, siginfo_t* si, void*) {
 
 [[noreturn]] void terminate_handler() {
   if (g_w) g_w->terminated = true;
-  rt::fail("std::terminate() called");
+  if (!(g_w && g_w->expect_terminate)) rt::fail("std::terminate() called");
   rt::obs("terminate");
   // the process would die here.  To keep exploring, abandon the owner's call stack (its frames are
   // never resumed; nothing is unwound) and let the scenario body wind the execution up.
-  if (g_w && g_w->term_jmp_armed && rt::self() == 0) longjmp(g_w->term_jmp, 1);
+  int me = rt::self();
+  if (g_w && me >= 0 && me < 3 && g_w->term_jmp_armed[me]) longjmp(g_w->term_jmp[me], 1);
   rt::join(rt::self());   // any other thread: never returns, reported as deadlock + monitor
   for (;;) pause();
 }
@@ -246,6 +248,45 @@ struct Leaf {
   }
 };
 
+// a leaf without a value and without a stop token, for spawn_detached
+struct VoidLeafOpBase {
+  virtual void complete(int kind) noexcept = 0;
+ protected:
+  ~VoidLeafOpBase() = default;
+};
+VoidLeafOpBase* g_void_leaf = nullptr;
+
+template <typename R>
+struct VoidLeafOp final : VoidLeafOpBase {
+  R r;
+  explicit VoidLeafOp(R&& rr) noexcept : r(std::move(rr)) {}
+  VoidLeafOp(VoidLeafOp&&) = delete;
+  ~VoidLeafOp() { if (g_w) ++g_w->leaf_destroyed; }
+  void start() noexcept { g_void_leaf = this; ++g_w->leaf_started; }
+  void complete(int kind) noexcept override {
+    switch (kind) {
+      case K_VALUE: unifex::set_value(std::move(r)); break;
+      case K_ERROR: unifex::set_error(std::move(r), std::make_exception_ptr(TrackedErr{Tracked{7}})); break;
+      default: unifex::set_done(std::move(r)); break;
+    }
+  }
+};
+
+struct VoidLeaf {
+  template <template <typename...> class Variant, template <typename...> class Tuple>
+  using value_types = Variant<Tuple<>>;
+  template <template <typename...> class Variant>
+  using error_types = Variant<std::exception_ptr>;
+  static constexpr bool sends_done = true;
+  static constexpr unifex::blocking_kind blocking = unifex::blocking_kind::never;
+  static constexpr bool is_always_scheduler_affine = false;
+
+  template <typename R>
+  VoidLeafOp<unifex::remove_cvref_t<R>> connect(R&& r) const noexcept {
+    return VoidLeafOp<unifex::remove_cvref_t<R>>{static_cast<R&&>(r)};
+  }
+};
+
 // ------------------------------------------------------------------ receivers
 struct FutRecv {
   World* w;
@@ -284,6 +325,8 @@ void World::finish(bool joined) {
   if (!joined) rt::fail("scope join did not complete: a scope reference leaked");
   if (awaited) {
     if (fut_completions != 1) rt::fail("awaited future completed %d times", fut_completions);
+    if (stop_after_completion && fut_outcome != kind)
+      rt::fail("stop was requested after the operation had completed, but the future delivered %s instead of the operation's %s", kind_name(fut_outcome), kind_name(kind));
     if (avail_at_await && fut_outcome != kind) rt::fail("result was available when the future was awaited but the future delivered %s", kind_name(fut_outcome));
   } else if (fut_completions != 0) rt::fail("future receiver completed although the future was never started");
 }
@@ -309,13 +352,13 @@ void scenario(int kind, Owner owner, bool stopper, bool late = false) {
   World w; w.kind = kind;
   Scope scope;
   volatile int t1v = -1, t2v = -1;
-  if (setjmp(w.term_jmp) != 0) {
+  if (setjmp(w.term_jmp[0]) != 0) {
     // std::terminate() was reached on T0 (already reported): let the other threads finish, then stop
     if (t1v >= 0) rt::join(t1v);
     if (t2v >= 0) rt::join(t2v);
     return;
   }
-  w.term_jmp_armed = true;
+  w.term_jmp_armed[0] = true;
   {
     auto fut0 = unifex::spawn_future(Leaf{}, scope, GuardAlloc<std::byte>{});
     std::optional<decltype(fut0)> fut{std::move(fut0)};
@@ -362,11 +405,44 @@ void scenario(int kind, Owner owner, bool stopper, bool late = false) {
       }
     }
   }
-  w.term_jmp_armed = false;
+  w.term_jmp_armed[0] = false;
   bool joined = false;
   auto jop = unifex::connect(join_sender(scope), JoinRecv{&joined});
   unifex::start(jop);
   w.finish(joined);
+}
+
+// spawn_detached: the operation state is deleted by the completing thread on value/done; an error
+// completion terminates the process (and nothing else does).
+template <typename Scope>
+void detached(int kind) {
+  World w; w.kind = kind; w.expect_terminate = (kind == K_ERROR);
+  Scope scope;
+  g_void_leaf = nullptr;
+  unifex::spawn_detached(VoidLeaf{}, scope, GuardAlloc<std::byte>{});
+  if (!g_void_leaf) { rt::fail("spawn_detached did not start the operation"); return; }
+  int t1 = rt::spawn([&] {
+    if (setjmp(w.term_jmp[1]) != 0) return;   // std::terminate() reached on this thread (recorded)
+    w.term_jmp_armed[1] = true;
+    rt::obs("op.complete %s stop=0", kind_name(w.kind));
+    rt::point("before-completion");
+    g_void_leaf->complete(w.kind);
+    w.term_jmp_armed[1] = false;
+    rt::obs("op.completed");
+  });
+  rt::join(t1);
+  if (kind == K_ERROR) {
+    if (!w.terminated) rt::fail("spawn_detached: error completion did not terminate the process");
+    return;
+  }
+  if (w.terminated) rt::fail("spawn_detached terminated the process for a %s completion", kind_name(kind));
+  bool joined = false;
+  auto jop = unifex::connect(join_sender(scope), JoinRecv{&joined});
+  unifex::start(jop);
+  if (w.uaf) rt::fail("heap state accessed after it was freed");
+  if (w.allocs != 1 || w.frees != 1) rt::fail("spawn_detached: %d allocated, %d freed", w.allocs, w.frees);
+  if (w.leaf_started != 1 || w.leaf_destroyed != 1) rt::fail("spawned operation started %d times, destroyed %d times", w.leaf_started, w.leaf_destroyed);
+  if (!joined) rt::fail("scope join did not complete: a scope reference leaked");
 }
 
 using V2 = unifex::v2::async_scope;
@@ -386,5 +462,18 @@ SCENARIO(drop_error) { scenario<V2>(K_ERROR, O_DROP, false); }
 SCENARIO(drop_done) { scenario<V2>(K_DONE, O_DROP, false); }
 SCENARIO(connect_drop_value) { scenario<V2>(K_VALUE, O_CONNECT_DROP, false); }
 SCENARIO(connect_stop_drop_value) { scenario<V2>(K_VALUE, O_CONNECT_DROP, true); }
+
+// the same usages through v1::async_scope (nest = attach: extra stop-callback layer)
+SCENARIO(v1_await_value) { scenario<V1>(K_VALUE, O_AWAIT, false); }
+SCENARIO(v1_await_error) { scenario<V1>(K_ERROR, O_AWAIT, false); }
+SCENARIO(v1_drop_value) { scenario<V1>(K_VALUE, O_DROP, false); }
+SCENARIO(v1_drop_done) { scenario<V1>(K_DONE, O_DROP, false); }
+SCENARIO(v1_cancel_value) { scenario<V1>(K_VALUE, O_AWAIT, true); }
+SCENARIO(v1_late_cancel_value) { scenario<V1>(K_VALUE, O_AWAIT, true, true); }
+
+SCENARIO(detached_value) { detached<V2>(K_VALUE); }
+SCENARIO(detached_done) { detached<V2>(K_DONE); }
+SCENARIO(detached_error) { detached<V2>(K_ERROR); }
+SCENARIO(v1_detached_value) { detached<V1>(K_VALUE); }
 
 RT_MAIN()
